@@ -375,11 +375,11 @@ func canonBody(files *abs.Built, ctype string, b []byte) string {
 
 // checkC17 : a request's outcome does not depend on other requests, concurrent or earlier.
 func checkC17(c *chk.Ctx) {
-	// ---- the design model: the correct design satisfies isolation, the two flawed designs are rejected
+	// ---- the design model: the correct design satisfies isolation, the three flawed designs are rejected
 	for _, v := range []struct {
 		cfg    string
 		expect bool
-	}{{"MC_Conc_ok.cfg", true}, {"MC_Conc_pooled.cfg", false}, {"MC_Conc_sharedwrite.cfg", false}} {
+	}{{"MC_Conc_ok.cfg", true}, {"MC_Conc_pooled.cfg", false}, {"MC_Conc_sharedwrite.cfg", false}, {"MC_Conc_unsyncinit.cfg", false}} {
 		r, err := tlc.Exec(tlc.Run{Module: "MC_Conc", Config: v.cfg, Workers: 4})
 		if err != nil {
 			c.Broken("tlc: %v", err)
@@ -392,7 +392,7 @@ func checkC17(c *chk.Ctx) {
 		case !v.expect && r.OK:
 			c.Broken("self-test: TLC accepted the flawed design %s (the specification cannot express the flaw)", v.cfg)
 		}
-		c.Infof("TLC %s: %d distinct states, %s", v.cfg, r.Distinct, map[bool]string{true: "no error (isolation, validator-once, completion)", false: "isolation violation found, as it must be"}[v.expect])
+		c.Infof("TLC %s: %d distinct states, %s", v.cfg, r.Distinct, map[bool]string{true: "no error (isolation, validator-once, completion)", false: "violation found, as it must be"}[v.expect])
 		c.AddInt("states", r.Distinct)
 	}
 	set := pluginSet(c)
@@ -538,7 +538,55 @@ func checkC17(c *chk.Ctx) {
 	for _, in := range insts {
 		byGroup[in.grp] = append(byGroup[in.grp], in)
 	}
+	// cold start: every group that runs in parallel also runs as the FIRST thing a new process does (no
+	// earlier request has initialised whatever the emitted package initialises lazily)
+	coldEv := map[int]map[string][]drv.Event{}
+	var coldGroups []int
 	for g := 1; g <= nGroups; g++ {
+		if ops[byGroup[g][0].id-1].Par > 1 {
+			coldGroups = append(coldGroups, g)
+		}
+	}
+	{
+		var mu sync.Mutex
+		var wg sync.WaitGroup
+		sem := make(chan struct{}, 4)
+		for _, g := range coldGroups {
+			wg.Add(1)
+			sem <- struct{}{}
+			go func(g int) {
+				defer wg.Done()
+				defer func() { <-sem }()
+				var gops []drv.Op
+				for _, in := range byGroup[g] {
+					gops = append(gops, ops[in.id-1])
+				}
+				ev, rc := runDrvRace(c, bin, w.Root, gops, fmt.Sprintf("cold%d", g))
+				mu.Lock()
+				coldEv[g] = ev
+				for _, r := range rc {
+					races = append(races, fmt.Sprintf("(cold start, group %d at parallelism %d) %s", g, gops[0].Par, r))
+				}
+				mu.Unlock()
+			}(g)
+		}
+		wg.Wait()
+	}
+	type segRun struct {
+		g    int
+		id   int
+		ev   map[string][]drv.Event
+		cold bool
+	}
+	var segRuns []segRun
+	for g := 1; g <= nGroups; g++ {
+		segRuns = append(segRuns, segRun{g: g, id: g, ev: conEv})
+	}
+	for _, g := range coldGroups {
+		segRuns = append(segRuns, segRun{g: g, id: 1000 + g, ev: coldEv[g], cold: true})
+	}
+	for _, sr := range segRuns {
+		g, conEv := sr.g, sr.ev
 		type line struct {
 			gseq float64
 			text string
@@ -567,18 +615,18 @@ func checkC17(c *chk.Ctx) {
 			ls = append(ls, line{last + 0.5, jsonLine(map[string]any{"event": "End", "id": in.id, "out": o.Out})})
 		}
 		sort.SliceStable(ls, func(a, b int) bool { return ls[a].gseq < ls[b].gseq })
-		seg := &trace.Segment{ID: g, Lines: []string{jsonLine(map[string]any{"event": "Reset", "group": g, "kind": byGroup[g][0].kind, "par": ops[byGroup[g][0].id-1].Par})}}
+		seg := &trace.Segment{ID: sr.id, Lines: []string{jsonLine(map[string]any{"event": "Reset", "group": sr.id, "kind": byGroup[g][0].kind, "par": ops[byGroup[g][0].id-1].Par})}}
 		for _, l := range ls {
 			seg.Lines = append(seg.Lines, l.text)
 		}
-		if g == 1 {
+		if sr.id == 1 {
 			for _, rc := range races {
 				seg.Lines = append(seg.Lines, jsonLine(map[string]any{"event": "Race", "detail": firstN(rc, 600)}))
 			}
 		}
 		evals += len(seg.Lines) - 1
 		segs = append(segs, seg)
-		c.AddSample(map[string]any{"group": g, "kind": byGroup[g][0].kind, "calls": len(byGroup[g]), "parallelism": ops[byGroup[g][0].id-1].Par})
+		c.AddSample(map[string]any{"group": sr.id, "cold_start": sr.cold, "kind": byGroup[g][0].kind, "calls": len(byGroup[g]), "parallelism": ops[byGroup[g][0].id-1].Par})
 	}
 	c.Set("rule", "one evaluation = one Begin / Sent / Saw / End event of a call executed among other calls (sequentially or concurrently, race detector on) on one registered server and one shared client per service; TLC accepts it only if it carries exactly what the same call yields alone on a fresh server and client")
 	c.Set("distinct_calls", len(order))
